@@ -1,7 +1,7 @@
 (* C16 -- digests, HMAC and CBC ciphers compute the standard functions for all inputs.
    Only property theorems here, each closed by `exact <lemma>`; proofs are in the other files of coq/C16.
    Bytes are N, byte strings list N, a message is fed as a list of chunks (one per append call). *)
-From CppcmsV Require Import Base.Tac C16.Defs C16.Blocks C16.ProofsMd5 C16.ProofsMd5Fin C16.ProofsSha1 C16.ProofsSha1Fips C16.ProofsHmac C16.ProofsCbc.
+From CppcmsV Require Import Base.Tac C16.Defs C16.Blocks C16.ProofsMd5 C16.ProofsMd5Fin C16.ProofsSha1 C16.ProofsSha1Fips C16.ProofsHmac C16.ProofsCbc C16.ProofsSess.
 Local Open Scope N_scope.
 
 (* ---------------------------------------------------------------------------------------------
@@ -258,7 +258,7 @@ Print Assumptions key_file_of_blanks_is_empty_key.
 Example key_hex_nonvacuous :
   set_hex [48;49;65;102] = KeyOk [1; 175] /\ set_hex [48;49;65] = KeyOddLength /\ set_hex [48;103] = KeyBadChar /\
   to_hex [1; 175] = [48;49;97;102] /\
-  key_from_file [48;49;65;102;10;32] = KeyOk [1; 175] /\ key_from_file [32;48;49] = KeyBadChar /\ key_from_file [] = KeyEmptyFile.
+  key_from_file [48;49;65;102;10;32] = KeyOk [1; 175] /\ key_from_file [32;48;49;50] = KeyBadChar /\ key_from_file [] = KeyEmptyFile.
 Proof. vm_compute. repeat split; reflexivity. Qed.
 
 (* ---------------------------------------------------------------------------------------------
@@ -282,4 +282,46 @@ Print Assumptions digest_by_name_sizes.
 Example wrappers_nonvacuous :
   digest_by_name [83;72;65;51;56;52] = Some ([115;104;97;51;56;52], 48, 128) /\ digest_by_name [109;100;52] = None /\
   cbc_ctl_run 16 (false, false) [OpEnc; OpKey 15; OpKey 16; OpDec; OpIv 16; OpEnc] = [StNoKey; StBadKeySize; StOk; StNoIv; StOk; StOk].
+Proof. vm_compute. repeat split; reflexivity. Qed.
+
+(* ---------------------------------------------------------------------------------------------
+   7. the session encryptors built on the primitives (hmac_encryptor.cpp, aes_encryptor.cpp), over an abstract MAC
+      (the hmac object under the mac key, |mac m| = dsz) and an abstract block cipher: what one node writes, every
+      node with the same keys reads back - whatever its running IVs are (set_nonce_iv gives each object its own) -
+      and nothing but a body followed by its own MAC is accepted.  Model tied to the code by reading + the sess oracle.
+   --------------------------------------------------------------------------------------------- *)
+Theorem hmac_cipher_roundtrip : forall (mac : list N -> list N) (dsz : nat),
+  (forall m, length (mac m) = dsz) -> forall p, hc_decrypt mac dsz (hc_encrypt mac p) = Some p.
+Proof. exact hc_roundtrip. Qed.
+Print Assumptions hmac_cipher_roundtrip.
+Theorem hmac_cipher_accepts_only_own_output : forall (mac : list N -> list N) (dsz : nat),
+  (forall m, length (mac m) = dsz) -> forall c p, hc_decrypt mac dsz c = Some p -> c = hc_encrypt mac p.
+Proof. exact hc_accepts_only_own_output. Qed.
+Print Assumptions hmac_cipher_accepts_only_own_output.
+Theorem aes_cipher_roundtrip_any_ivs : forall (mac : list N -> list N) (dsz : nat),
+  (forall m, length (mac m) = dsz) ->
+  forall E Dc : list N -> list N,
+  (forall b, length b = 16%nat -> length (E b) = 16%nat) ->
+  (forall b, length b = 16%nat -> length (Dc b) = 16%nat) ->
+  (forall b, length b = 16%nat -> Dc (E b) = b) ->
+  forall iv_enc iv_dec p, length iv_enc = 16%nat -> length iv_dec = 16%nat -> len p < 4294967296 ->
+  fst (ac_decrypt mac dsz Dc iv_dec (fst (ac_encrypt mac E iv_enc p))) = Some p.
+Proof. exact ac_roundtrip. Qed.
+Print Assumptions aes_cipher_roundtrip_any_ivs.
+Theorem aes_cipher_accepts_only_authentic : forall (mac : list N -> list N) (dsz : nat),
+  (forall m, length (mac m) = dsz) ->
+  forall (Dc : list N -> list N) iv c p, fst (ac_decrypt mac dsz Dc iv c) = Some p ->
+  mac (firstn (length c - dsz) c) = skipn (length c - dsz) c /\ (32 <= length c - dsz)%nat /\ ((length c - dsz) mod 16 = 0)%nat.
+Proof. exact ac_accepts_only_authentic. Qed.
+Print Assumptions aes_cipher_accepts_only_authentic.
+(* toy cipher and toy MAC (sum of the bytes, 1 byte): 5-byte text -> 32-byte body + 1; other IV on the reading side *)
+Example session_nonvacuous :
+  let E := map (fun b => (b + 1) mod 256) in
+  let Dc := map (fun b => (b + 255) mod 256) in
+  let mac := fun m => [fold_left N.add m 0 mod 256] in
+  let c := fst (ac_encrypt mac E (map N.of_nat (seq 1 16)) [104;101;108;108;111]) in
+  length c = 33%nat /\
+  fst (ac_decrypt mac 1 Dc (repeat 7 16) c) = Some [104;101;108;108;111] /\
+  fst (ac_decrypt mac 1 Dc (repeat 7 16) (removelast c ++ [0])) = None /\
+  hc_decrypt mac 1 (hc_encrypt mac [1;2;3]) = Some [1;2;3] /\ hc_decrypt mac 1 [1;2;3;7] = None.
 Proof. vm_compute. repeat split; reflexivity. Qed.
